@@ -243,6 +243,9 @@ Definition pick_src (ring : list entry) (sts : list (Z * Z)) (src : hsrc) : pres
         [3; h; s_0..s_(N-1)]  Pick with request hash h, endpoint i in state s_i
                            obs [code; key; nexit; exit keys...]
         [4; h; s_0..s_(N-1)]  Pick with the random hash h   obs as for 3
+        [6; a_1; i_1; ..; a_k; i_k]  resolver update through the real balancer
+                           (UpdateClientConnState -> UpdateState -> newRing): address a_j
+                           carries hash key and weight of cfg endpoint i_j; obs as for 1
         [5; hdr; xdsp; xh; mdp; nv; v_1..v_nv; hj; r; s_0..s_(N-1)]
                            Pick with the hash source chosen by the real code: header
                            configured or not, xDS hash in the context or not, outgoing
@@ -322,19 +325,40 @@ Definition sts_of (c : config) (idxs : list Z) (ss : list Z) : list (Z * Z) :=
 Definition presult_obs (p : presult) : word :=
   let '(code, k, ex) := p in code :: k :: zlen ex :: ex.
 
+(* building the ring for the endpoints with cfg indices idxs *)
+Definition step_build (c : config) (s : mstate) (idxs : list Z) : option (mstate * word) :=
+  match select c idxs with
+  | Some eps =>
+    if tgts_ok (minR c) (maxR c) eps then
+      match new_ring (minR c) (maxR c) eps with
+      | Some r => Some (mkst r idxs, ring_obs r)
+      | None => None
+      end
+    else None
+  | None => Some (s, [])
+  end.
+
+(* op [6; a_1; i_1; ...; a_k; i_k]: a resolver update delivered to the balancer of the
+   case: the endpoint with address a_j now has the hash key and the weight of cfg endpoint
+   i_j (endpoints not listed are removed).  Whatever the balancer saw before, the ring
+   must be the ring of the CURRENT endpoint set: the model is the one of op 1.
+   Malformed lists / repeated addresses: ignored. *)
+Fixpoint unpairs (w : word) : option (list Z * list Z) :=
+  match w with
+  | [] => Some ([], [])
+  | a :: i :: r => match unpairs r with Some (la, li) => Some (a :: la, i :: li) | None => None end
+  | _ => None
+  end.
+Definition update_idxs (w : word) : list Z :=
+  match unpairs w with
+  | Some (la, li) => if distinct la then li else []
+  | None => []
+  end.
+
 Definition step (c : config) (s : mstate) (op : word) : option (mstate * word) :=
   match op with
-  | 1 :: idxs =>
-    match select c idxs with
-    | Some eps =>
-      if tgts_ok (minR c) (maxR c) eps then
-        match new_ring (minR c) (maxR c) eps with
-        | Some r => Some (mkst r idxs, ring_obs r)
-        | None => None
-        end
-      else None
-    | None => Some (s, [])
-    end
+  | 1 :: idxs => step_build c s idxs
+  | 6 :: rest => step_build c s (update_idxs rest)
   | [2; h] =>
     match cur_ring s with
     | [] => Some (s, [])
@@ -558,6 +582,7 @@ Definition cl_step (c : config) (cs : cstate) (pos : Z) (op o : word)
   : cstate * list (Z * Z * bool) :=
   match op with
   | 1 :: idxs => cl_build c cs pos idxs o
+  | 6 :: rest => cl_build c cs pos (update_idxs rest) o
   | [2; h] =>
     match cs_ring cs with
     | [] => (cs, [(0, pos, match o with [] => true | _ => false end)])
